@@ -502,6 +502,20 @@ def run_shard(ctx):
             for alg in ("HS256", "ES256"):
                 direction_a(ctx, P.Cell(rng, alg=alg, form="compact", b64="false", payload=pl, key_given="key", placement="protected"), rng)
                 ctx.count("edge_payloads_unencoded")
+        # the other direction: what a foreign producer attaches unencoded need not be URL-safe (RFC 7797 5.2 forbids the period only) - it is read
+        j_ = J.load()
+        for text in (b"hello, world! not url safe", b"a b", b"x=y&z=1", b'"quoted"', b"token_123~", b"tab\there", b"{\"a\":1}", "Grüße".encode()):
+            for alg in ("HS256", "ES256"):
+                key = key_for(alg)
+                t = rjws.compact({"alg": alg_name(alg), "b64": False, "crit": ["b64"]}, text, RefKey.from_jwk(key))
+                ctx.ev()
+                o = call(j_.rfc7797.deserialize_compact, t, j_.key(gen.public_jwk(key)), algorithms=[alg_name(alg)])
+                ctx.count("b_checked")
+                ctx.count("foreign_attached_unencoded_payloads")
+                ctx.nontrivial(("foreign-attached", text, alg))
+                if not o.ok or o.value.payload != text:
+                    ctx.violation(f"joserfc-rejects-foreign:attached-unencoded-payload:{alg_name(alg)}", f"a b64:false compact token of the reference with the attached payload {text!r}: "
+                                  f"{'rejected: ' + repr(o.exc) if not o.ok else 'another payload'}", {"dir": "B", "alg": alg, "form": "c7797", "style": "compact", "token": t, "keys": [key]})
     n = 60 if ctx.tier == "quick" else 3000
     for _ in range(n):
         if ctx.out_of_time():
